@@ -43,6 +43,12 @@ LISTREQ = {
     ('signal', 0): ('signal', 'access'), ('signal', 1): ('signal', 'set'), ('ptrace', 0): ('ptrace', 'access'),
     ('unix', 0): ('unix', 'access'), ('dbus', 0): ('dbus', 'access'),
 }
+# values a field really takes in policy text (keywords with a meaning of their own: a queue type, a socket type, a bus),
+# used by generators that set `real = True`: two rules that differ only by such a value being present or absent
+REAL = {('mqueue', 1): ['posix', 'sysv'], ('mqueue', 3): ['/q', '42', '/queue*', '7'], ('unix', 1): ['stream', 'dgram', 'seqpacket'],
+        ('unix', 2): ['0', '1'], ('dbus', 1): ['system', 'session'], ('mount', 0): ['ext4', 'tmpfs'], ('umount', 0): ['ext4', 'tmpfs'],
+        ('remount', 0): ['ext4', 'tmpfs'], ('network', 3): ['inet', 'inet6', 'unix'], ('network', 4): ['stream', 'dgram'],
+        ('network', 5): ['tcp', 'udp'], ('change_profile', 0): ['safe', 'unsafe']}
 CANON_STR = ['/etc/a', '/etc/b', '/etc/a/b', '@{bin}/a', '@{bin}/ab', '@{lib}/x', '/zzz', '/zz', '/usr/share/x', '/home/u/.c',
              '@{run}/x', '/dev/null', '/opt/x', '/var/x', '/a', 'foo', 'bar', 'foo-bar', 'a.b', 'org.x.y', 'tcp', 'x',
              '/tmp/x', '@{tmp}/y', '/dev/shm/z', '/{a,b}', '/a*', '/a**', 'session', 'system', ':1.2',
@@ -121,7 +127,9 @@ class Gen:
         kind = kind or r.choice(list(SCHEMA))
         f = []
         for i, t in enumerate(SCHEMA[kind]):
-            if t == 's':
+            if t == 's' and getattr(self, 'real', False) and (kind, i) in REAL and r.random() < 0.5:
+                f.append(r.choice(REAL[(kind, i)] + ['']))
+            elif t == 's':
                 f.append(self.s(odd))
             elif t == 'l':
                 f.append(self.lst(kind, i))
@@ -178,6 +186,8 @@ class Gen:
                 y['f'][i] = y['f'][i].swapcase()
             elif odd and k == 3 and y['f'][i]:
                 y['f'][i] = y['f'][i] + r.choice([' ', '\t', 'A'])
+            elif getattr(self, 'real', False) and (kind, i) in REAL and r.random() < 0.7:
+                y['f'][i] = r.choice([v for v in REAL[(kind, i)] + [''] if v != y['f'][i]])
             else:
                 y['f'][i] = self.s(odd)
         elif t == 'l':
